@@ -719,6 +719,36 @@ def store_nofuse(ctx: Ctx) -> None:
             if isinstance(st, ast.Assign) and isinstance(st.targets[0], ast.Attribute) and st.targets[0].attr == "fusable_with_successors" and unparse(st.targets[0].value) == recv and isinstance(st.value, ast.Constant) and st.value.value is False:
                 blk_ok = True
         ctx.ob(f, a, blk_ok, f"the operation whose target is replaced (`{recv}`) is marked fusable_with_successors = False on the same object" + ("" if blk_ok else " — it is not: the optimiser may fuse the producer into a consumer and the target is never written"), sel="nofuse:in-place")
+    # the same re-targeting done on a copy: replace(op, target_array=…, …) must carry the
+    # mark as well, and the copy must be what the plan node holds afterwards
+    for c in f.own_nodes():
+        if not (isinstance(c, ast.Call) and kwarg(c, "target_array") is not None and kwarg(c, "target_store") is None):
+            continue
+        n += 1
+        v = kwarg(c, "fusable_with_successors")
+        marked = isinstance(v, ast.Constant) and v.value is False
+        ctx.ob(f, c, marked, f"`{unparse(c.func)}(…, target_array=…)` re-targets a copy of the operation and marks it fusable_with_successors=False", sel="nofuse:copy-marked", firm=True)
+        # stored back under the node's "primitive_op"
+        holder = None
+        for st in f.own_nodes():
+            if isinstance(st, ast.Assign) and st.value is c and isinstance(st.targets[0], ast.Name):
+                holder = st.targets[0].id
+        back = False
+        for st in f.own_nodes():
+            if isinstance(st, ast.Assign) and isinstance(st.targets[0], ast.Subscript) and "primitive_op" in subscript_keys(st.targets[0]):
+                if st.value is c or (holder is not None and isinstance(st.value, ast.Name) and st.value.id == holder):
+                    back = True
+            if isinstance(st, ast.Call) and isinstance(st.func, ast.Attribute) and st.func.attr == "update" and any(k.arg == "primitive_op" and (k.value is c or (holder and isinstance(k.value, ast.Name) and k.value.id == holder)) for k in st.keywords):
+                back = True
+        ctx.ob(
+            f,
+            c,
+            back,
+            "the re-targeted copy of the operation replaces the one in the plan node"
+            + ("" if back else " — it is never stored under the node's \"primitive_op\": the plan keeps the operation without the mark, the optimiser fuses it into its consumer and the target is never written"),
+            sel="nofuse:copy-stored",
+            firm=True,
+        )
     ctx.need(n >= 3, "store sinks not found")
 
 
